@@ -25,6 +25,7 @@ def engineModel (eng : String) (args : List String) : Option String :=
   | "op" => Op.model args
   | "body" => Body.model args
   | "eng" => Eng.model args
+  | "engrep" => Eng.model args
   | _ => none
 
 def engineJudge (eng : String) (args obs : List String) : Bool :=
@@ -34,6 +35,7 @@ def engineJudge (eng : String) (args obs : List String) : Bool :=
   | "op" => Op.judge args obs
   | "body" => Body.judge args obs
   | "eng" => Eng.judge args obs
+  | "engrep" => Eng.judge args obs
   | _ => true
 
 def handle (line : String) : String :=
